@@ -212,10 +212,10 @@ CHECKS = {
     },
     "C14": {
         "pkg": "c14",
-        "corpus": {"quick": 3000, "thorough": 12000, "profile": "mixed"},
-        "variants": [{"name": "hooks", "tags": "verif"},
-                     {"name": "hooks-race", "tags": "verif", "race": True, "shards": {"quick": 4, "thorough": 8}},
-                     {"name": "plain", "shards": {"quick": 4, "thorough": 8}}],
+        "corpus": {"quick": 3000, "thorough": 6000, "profile": "mixed"},
+        "variants": [{"name": "hooks", "tags": "verif", "shards": {"quick": 16, "thorough": 12}},
+                     {"name": "hooks-race", "tags": "verif", "race": True, "shards": {"quick": 4, "thorough": 6}},
+                     {"name": "plain", "shards": {"quick": 4, "thorough": 6}}],
         "mem_gb": 10,
         "rule": ("the binary is the generated input: cmd/gencorpus writes N named struct types per VERIF_SEED (recursive, mutually recursive in pairs, embedded, with value/pointer receiver marshal methods; "
                  "plus unnamed composites []T, map[string]*T, *T, [3]T, map[int][]*T over them) into the check's test binary, so every seed gives another linker layout; every shard walks the whole registry in its own "
@@ -244,5 +244,19 @@ CHECKS = {
         "level_text": "Exploration of recursive type shapes x nesting depths x cycles through all interpreters; exploration level.",
         "level_note": "Chains through types whose marshal methods re-encode the receiver stop at depth 100 and get no cycles (any encoder recurses natively there). Indenting entry points on map chains deeper than 300 are an open finding (memory).",
         "assumptions": ["encoding/json defines the expected output and which values are cyclic"],
+    },
+    "C11": {
+        "pkg": "c11", "variants": [PLAIN],
+        "rule": ("per shard a pool of 260 (thorough 600) self-contained call descriptors is derived from VERIF_SEED: Marshal / MarshalIndent / MarshalWithOption (Colorize, UnorderedMap, DisableHTMLEscape, "
+                 "DisableNormalizeUTF8, Debug) / MarshalContext (marker and FieldQuery handles) / MarshalNoEscape / Encoder handles; Unmarshal / UnmarshalContext / UnmarshalNoEscape / first-win / Decoder handles; "
+                 "Path handles (Unmarshal, Extract, Get); Valid / Compact / Indent / HTMLEscape; over 20 types; deliberately failing calls: marshaler error, marshaler panic (recovered by the caller), cyclic values "
+                 "(1200-node list, self-containing map), syntax errors cut at drawn positions, type errors, refusing and panicking unmarshalers, failing paths; plus a 1200-deep acyclic list built from the same nodes as "
+                 "the cycle. Cold oracle: every pool call is executed alone as the first call of a fresh process. rapid draws histories (2..300 calls) over the pool; each history runs in its own fresh process with "
+                 "handles shared inside the history, and every call's outcome (error type and text with addresses masked, output bytes / decoded value; member order normalised for UnorderedMap and for recursive "
+                 "descent over Go maps) must equal its cold outcome. Non-trivial = a failing call is followed by a call sharing its type or handle, or one type is used with two option sets; distinct by call-id sequence."),
+        "technique": "stateful property-based testing (rapid, histories shrink as one sequence) against a cold-process oracle: each call's outcome in a history vs the same call issued first in a fresh process",
+        "level_text": "Randomised exploration of call histories against a cold-process oracle; exploration level.",
+        "level_note": "A Decoder handle is replaced after an error or a recovered panic (a stream cannot be resynchronised; the statement is read as 'option state is not sticky'). Every history starts from a fresh process, so the first use of each type happens inside the history.",
+        "assumptions": ["the outcome of a pool call in a fresh process is deterministic (checked: cold calls that do not complete are excluded and counted)"],
     },
 }
